@@ -68,21 +68,23 @@ Record gst := {
   g_busy : list (Z * Z);       (* Store.busy *)
   g_tracts : list (Z * Z);     (* Store.tracts: id -> modification stamp relative to initialStamp *)
   g_files : list (Z * file);   (* disk contents by tract id *)
-  g_nextfd : Z;
+  g_gens : list (Z * Z);     (* per tract: the fd the next created file of that tract gets (MemDisk's nextFD only serves to tell
+                                 a re-created file from its deleted predecessor, which is a per-tract matter) *)
   g_opens : Z;                 (* successful Opens *)
   g_closes : Z                 (* Close calls on opened handles *)
 }.
 
-Definition with_busy g b := {| g_busy := b; g_tracts := g_tracts g; g_files := g_files g; g_nextfd := g_nextfd g; g_opens := g_opens g; g_closes := g_closes g |}.
-Definition with_tracts g t := {| g_busy := g_busy g; g_tracts := t; g_files := g_files g; g_nextfd := g_nextfd g; g_opens := g_opens g; g_closes := g_closes g |}.
-Definition with_files g f := {| g_busy := g_busy g; g_tracts := g_tracts g; g_files := f; g_nextfd := g_nextfd g; g_opens := g_opens g; g_closes := g_closes g |}.
-Definition opened_one g := {| g_busy := g_busy g; g_tracts := g_tracts g; g_files := g_files g; g_nextfd := g_nextfd g; g_opens := g_opens g + 1; g_closes := g_closes g |}.
-Definition closed_one g := {| g_busy := g_busy g; g_tracts := g_tracts g; g_files := g_files g; g_nextfd := g_nextfd g; g_opens := g_opens g; g_closes := g_closes g + 1 |}.
+Definition next_fd (g : gst) (id : Z) : Z := match get id (g_gens g) with Some n => n | None => 1 end.
+Definition with_busy g b := {| g_busy := b; g_tracts := g_tracts g; g_files := g_files g; g_gens := g_gens g; g_opens := g_opens g; g_closes := g_closes g |}.
+Definition with_tracts g t := {| g_busy := g_busy g; g_tracts := t; g_files := g_files g; g_gens := g_gens g; g_opens := g_opens g; g_closes := g_closes g |}.
+Definition with_files g f := {| g_busy := g_busy g; g_tracts := g_tracts g; g_files := f; g_gens := g_gens g; g_opens := g_opens g; g_closes := g_closes g |}.
+Definition opened_one g := {| g_busy := g_busy g; g_tracts := g_tracts g; g_files := g_files g; g_gens := g_gens g; g_opens := g_opens g + 1; g_closes := g_closes g |}.
+Definition closed_one g := {| g_busy := g_busy g; g_tracts := g_tracts g; g_files := g_files g; g_gens := g_gens g; g_opens := g_opens g; g_closes := g_closes g + 1 |}.
 Definition created_file g id := {| g_busy := g_busy g; g_tracts := g_tracts g;
-  g_files := set id {| f_fd := g_nextfd g; f_ver := None; f_data := [] |} (g_files g);
-  g_nextfd := g_nextfd g + 1; g_opens := g_opens g + 1; g_closes := g_closes g |}.
+  g_files := set id {| f_fd := next_fd g id; f_ver := None; f_data := [] |} (g_files g);
+  g_gens := set id (next_fd g id + 1) (g_gens g); g_opens := g_opens g + 1; g_closes := g_closes g |}.
 
-Definition g0 : gst := {| g_busy := []; g_tracts := []; g_files := []; g_nextfd := 1; g_opens := 0; g_closes := 0 |}.
+Definition g0 : gst := {| g_busy := []; g_tracts := []; g_files := []; g_gens := []; g_opens := 0; g_closes := 0 |}.
 
 (* ---------- operations ---------- *)
 Inductive kind := KCreate | KWrite | KRead | KStat | KSetVersion | KPull | KGCOld | KGCGone | KCheck | KPack | KScrub.
@@ -404,7 +406,7 @@ Definition step (V : variant) (g : gst) (o : opd) (p : pc) (l : loc) (inj : Z) :
       if negb (inj =? 0) then Some (g, PCSetver, set_err l0 inj)
       else match get id (g_files g) with
            | Some _ => Some (g, PCSetver, set_err l0 c18_e_AlreadyExists)
-           | None => Some (created_file g id, PCSetver, set_open l0 (g_nextfd g))
+           | None => Some (created_file g id, PCSetver, set_open l0 (next_fd g id))
            end
   | PCSetver =>
       let nxt := match k with KPack => PPackLoop | _ => PCWrite end in
@@ -764,8 +766,8 @@ Definition step_line (c : cstate) (op : list Z) : cstate * list Z :=
       | [e] =>
           let '(g, ths) := c_sys c in
           let g' := {| g_busy := g_busy g; g_tracts := set k 0 (g_tracts g);
-                       g_files := set k {| f_fd := g_nextfd g; f_ver := Some ver; f_data := firstn cnt r |} (g_files g);
-                       g_nextfd := g_nextfd g + 1; g_opens := g_opens g; g_closes := g_closes g |} in
+                       g_files := set k {| f_fd := next_fd g k; f_ver := Some ver; f_data := firstn cnt r |} (g_files g);
+                       g_gens := set k (next_fd g k + 1) (g_gens g); g_opens := g_opens g; g_closes := g_closes g |} in
           ({| c_sys := (g', ths); c_mgr := c_mgr c |}, if e =? 0 then [777; 1] else [(-2); 0])
       | _ => bad
       end
